@@ -225,6 +225,9 @@ int main(void)
 			size_t r = mpt_message_read(&msg, a, buf);
 			printf("R ret=%zu out=", r);
 			drv_puthex(stdout, buf, (nodst || r > a) ? 0 : r);
+			/* what a consumer that goes on with msg.base / msg.used sees next (the read leaves the cursor on data
+			 * whenever data remains) */
+			if (msg.used) printf(" head=%02x", ((const uint8_t *) msg.base)[0]); else printf(" head=none");
 			tail("0");
 			free(buf);
 		}
